@@ -65,6 +65,7 @@ def sanitizer_kinds(logp):
         kinds.append("ubsan: " + m.group(1))
     for m in re.finditer(r"==\d+== (Invalid (?:read|write|free)[^\n]*|Mismatched free[^\n]*|[\d,]+ bytes in [\d,]+ blocks are definitely lost[^\n]*|Conditional jump or move depends on uninitialised[^\n]*|Use of uninitialised[^\n]*)", txt):
         k = re.sub(r"[\d,]+ bytes in [\d,]+ blocks", "N bytes", m.group(1))
+        k = re.sub(r" in loss record [\d,]+ of [\d,]+", "", k)
         kinds.append("valgrind: " + k[:80])
     if re.search(r"panicked at|fatal runtime error|Aborted", txt):
         kinds.append("abort / panic crossed the FFI boundary")
